@@ -3,6 +3,7 @@ package checks
 import (
 	"encoding/json"
 	"fmt"
+	"github.com/zenon-network/go-zenon/common/db"
 	"math/big"
 	"time"
 
@@ -25,7 +26,7 @@ import (
 // received (C09), within the emission (C11).
 
 type dustArg struct {
-	Kind    string // "" = dust backers; "sentinel-late-revoke"
+	Kind    string // "" = dust backers; "sentinel-late-revoke"; "revoked-pillar"
 	Seed    int64
 	Amounts [2]int64 // base units held by the two backers at the start of the epoch
 	Move    int64    // base units moved from the first to the second backer in mid-epoch
@@ -51,6 +52,9 @@ func init() {
 func dustScenario(a dustArg) (*scenarioResult, error) {
 	if a.Kind == "sentinel-late-revoke" {
 		return sentinelLateRevoke(a)
+	}
+	if a.Kind == "revoked-pillar" {
+		return revokedPillar(a)
 	}
 	walk.LabConstants()
 	verifier.ReceiverMismatchEnforcementHeight = 1
@@ -194,7 +198,7 @@ func dustScenario(a dustArg) (*scenarioResult, error) {
 
 func dustRuns(run *core.Run, prop string) []ledgerRun {
 	args := []dustArg{{Seed: run.Seed, Amounts: [2]int64{1, 0}, Move: 1}, {Seed: run.Seed, Amounts: [2]int64{1, 1}, Move: 0}, {Seed: run.Seed, Amounts: [2]int64{3, 0}, Move: 2},
-		{Kind: "sentinel-late-revoke", Seed: run.Seed}}
+		{Kind: "sentinel-late-revoke", Seed: run.Seed}, {Kind: "revoked-pillar", Seed: run.Seed}}
 	if run.Thorough() {
 		args = append(args, dustArg{Seed: run.Seed, Amounts: [2]int64{2, 1}, Move: 2}, dustArg{Seed: run.Seed, Amounts: [2]int64{1, 0}, Move: 0}, dustArg{Seed: run.Seed, Amounts: [2]int64{100000000, 1}, Move: 99999999})
 	}
@@ -222,7 +226,11 @@ func dustRuns(run *core.Run, prop string) []ledgerRun {
 			continue
 		}
 		for _, f := range outs[i].Findings {
-			run.ReportFor("C09", "C09:"+f[0], f[1]+fmt.Sprintf(" (dust-backers scenario %+v)", args[i]), map[string]interface{}{"kind": "dust", "arg": args[i]})
+			fp := "C09"
+			if args[i].Kind == "revoked-pillar" {
+				fp = prop
+			}
+			run.ReportFor(fp, fp+":"+f[0], f[1]+fmt.Sprintf(" (scenario %+v)", args[i]), map[string]interface{}{"kind": "dust", "arg": args[i]})
 		}
 		runs = append(runs, outs[i].Run)
 		stats = append(stats, outs[i].Stats)
@@ -323,5 +331,153 @@ func sentinelLateRevoke(a dustArg) (*scenarioResult, error) {
 	name := fmt.Sprintf("sentinel late-revoke scenario seed=%d enforced=true", a.Seed)
 	res.Run = ledgerRun{Name: name, Events: pr.Events, Note: pr.Note}
 	res.Stats = fmt.Sprintf("%s: %d momentums, %d blocks, sentinel contract rewarded up to epoch %d, %d active sentinel left", name, pr.Momentums, pr.Blocks, last.LastEpoch, active)
+	return res, nil
+}
+
+// revokedPillar: a pillar registers, takes part in elections, and is revoked in the middle of an epoch. The epochs it took part
+// in are still rewarded (the pillar contract's cursor keeps up), and two followers - one of them answering read-only consensus
+// queries between deliveries - accept the producer's chain and end in its state (C11: a function of the chain alone).
+func revokedPillar(a dustArg) (*scenarioResult, error) {
+	walk.LabConstants()
+	verifier.ReceiverMismatchEnforcementHeight = 1
+	res := &scenarioResult{}
+	find := func(key, format string, args ...interface{}) {
+		res.Findings = append(res.Findings, [2]string{key, fmt.Sprintf(format, args...)})
+	}
+	node.Clock.Set(time.Unix(1000000000, 0))
+	cap := ledger.StartCapture()
+	defer cap.Stop()
+	p, err := node.New("revoked-pillar", node.Options{Producer: true})
+	if err != nil {
+		return nil, err
+	}
+	defer p.Stop()
+	key := g.Pillar4
+	call := func(what string, tok types.ZenonTokenStandard, amt *big.Int, data []byte) error {
+		if _, err := p.Submit(&nom.AccountBlock{BlockType: nom.BlockTypeUserSend, Address: key.Address, ToAddress: types.PillarContract, TokenStandard: tok, Amount: amt, Data: data}, key); err != nil {
+			return fmt.Errorf("revoked-pillar scenario: %s refused: %v", what, err)
+		}
+		return nil
+	}
+	if err := call("deposit", types.QsrTokenStandard, unitsOf(160000), definition.ABIPillars.PackMethodPanic(definition.DepositQsrMethodName)); err != nil {
+		return nil, err
+	}
+	if err := p.ProduceN(3); err != nil {
+		return nil, err
+	}
+	if err := call("register", types.ZnnTokenStandard, constants.PillarStakeAmount,
+		definition.ABIPillars.PackMethodPanic(definition.RegisterMethodName, g.Pillar4Name, key.Address, g.User3.Address, uint8(10), uint8(50))); err != nil {
+		return nil, err
+	}
+	if err := p.ProduceN(3); err != nil {
+		return nil, err
+	}
+	st := func() db.DB {
+		return p.Chain.GetFrontierMomentumStore().GetAccountStore(types.PillarContract).Storage()
+	}
+	info, err := definition.GetPillarInfo(st(), g.Pillar4Name)
+	if err != nil || info == nil {
+		return nil, fmt.Errorf("revoked-pillar scenario: the pillar was not registered (%v)", err)
+	}
+	// until it has produced (it is elected two ticks after it appears), then on to its next revoke window, a good way into an epoch
+	produced := false
+	for i := 0; i < 4*walk.EpochMomentums && !produced; i++ {
+		if err := p.Produce(0); err != nil {
+			return nil, err
+		}
+		fr := p.Frontier()
+		if fr.Producer() == key.Address {
+			produced = true
+		}
+	}
+	if !produced {
+		return nil, fmt.Errorf("revoked-pillar scenario: the registered pillar never produced")
+	}
+	for i := 0; i < 2*walk.EpochMomentums; i++ {
+		t := p.Frontier().Timestamp.Unix()
+		inWindow := (t-info.RegistrationTime)%(constants.PillarEpochLockTime+constants.PillarEpochRevokeTime) >= constants.PillarEpochLockTime+20
+		midEpoch := int(p.Height())%walk.EpochMomentums > 12 && int(p.Height())%walk.EpochMomentums < 50
+		if inWindow && midEpoch {
+			break
+		}
+		if err := p.Produce(0); err != nil {
+			return nil, err
+		}
+	}
+	if err := call("revoke", types.ZeroTokenStandard, big.NewInt(0), definition.ABIPillars.PackMethodPanic(definition.RevokeMethodName, g.Pillar4Name)); err != nil {
+		return nil, err
+	}
+	if err := p.ProduceN(3); err != nil {
+		return nil, err
+	}
+	if info, _ = definition.GetPillarInfo(st(), g.Pillar4Name); info != nil && info.RevokeTime == 0 {
+		return nil, fmt.Errorf("revoked-pillar scenario: the revocation did not go through")
+	}
+	var perr error
+	for i := 0; i < 2*walk.EpochMomentums+2*walk.UpdateMomentums; i++ {
+		if perr = p.Produce(0); perr != nil {
+			break
+		}
+	}
+	if perr != nil {
+		find("producer-stops", "the producing node cannot produce: %v (problems %v)", perr, p.Problems)
+	}
+	w := walk.New(p, a.Seed)
+	w.Drain(40)
+	for _, pb := range p.Problems {
+		find("producer-problem", "producing pillar reported: %s", pb)
+	}
+	last, err := definition.GetLastEpochUpdate(st())
+	cur := int64(p.Cons.FrontierPillarReader().EpochTicker().ToTick(*p.Frontier().Timestamp))
+	if err != nil || last.LastEpoch < cur-3 {
+		find("pillar-rewards-stop-after-a-revocation", "the pillar contract has rewarded up to epoch %d while epoch %d is running, %d momentums after a pillar that had produced was revoked: the epochs it took part in are never rewarded", last.LastEpoch, cur, 2*walk.EpochMomentums+2*walk.UpdateMomentums)
+	}
+	// two followers
+	all, err := p.Detailed(2, p.Height())
+	if err != nil {
+		return nil, err
+	}
+	want := p.Dump()
+	node.Clock.Set(p.Frontier().Timestamp.Add(time.Hour))
+	for _, queries := range []bool{false, true} {
+		f, err := node.New("revoked-pillar-follower", node.Options{})
+		if err != nil {
+			return nil, err
+		}
+		step := 9
+		if queries {
+			step = 1
+		}
+		ok := true
+		for i := 0; i < len(all) && ok; i += step {
+			j := i + step
+			if j > len(all) {
+				j = len(all)
+			}
+			if queries {
+				readOnlyQueries(f)
+			}
+			if idx, err := f.InsertChain(wireAll(all[i:j])); err != nil {
+				find(fmt.Sprintf("follower-refuses-producer-chain-queries-%v", queries), "a follower (read-only consensus queries between deliveries: %v) refuses momentum %d of the producer's chain: %v - what a node credits depends on what it was asked before", queries, 2+i+idx, err)
+				ok = false
+			}
+		}
+		if ok && f.Dump() != want {
+			find(fmt.Sprintf("follower-state-differs-queries-%v", queries), "a follower (queries: %v) ends in another state than the producer: %s", queries, firstDiff(want, f.Dump()))
+		}
+		f.Stop()
+	}
+	ids := cap.ChainIDs()
+	if len(ids) < 1 {
+		return nil, fmt.Errorf("no chain in capture")
+	}
+	pr := ledger.NewProjector()
+	pr.Observer = ledger.StandardObserver(walk.EpochMomentums)
+	if err := cap.Project(ids[0], pr); err != nil {
+		return nil, err
+	}
+	name := fmt.Sprintf("revoked-pillar scenario seed=%d enforced=true", a.Seed)
+	res.Run = ledgerRun{Name: name, Events: pr.Events, Note: pr.Note}
+	res.Stats = fmt.Sprintf("%s: %d momentums, %d blocks, pillar contract rewarded up to epoch %d of %d", name, pr.Momentums, pr.Blocks, last.LastEpoch, cur)
 	return res, nil
 }
